@@ -103,6 +103,11 @@ def generate(seed: int, tier: str = "quick") -> dict:
 
         if kind == "add_by_tick":
             lo, hi = rng_ticks()
+            if sp > 1 and rp.random() < 0.3:
+                # ticks off the spacing grid (trimmed by the market to the nearest usable tick), half a spacing off included:
+                # rounding to usable ticks must commute with mirroring
+                lo += rp.choice([sp // 2, sp // 2, rp.randint(1, sp - 1)])
+                hi += rp.choice([sp // 2, sp // 2, rp.randint(1, sp - 1), 0])
             o = {"op": "uni.add_by_tick", "a": {"lo": lo, "hi": hi, "base": {"f": f"wallet:{B}", "x": _frac(rp)}, "quote": {"f": f"wallet:{Q}", "x": _frac(rp)}, "where": where}}
             n_created += 1
         elif kind == "add":
